@@ -17,7 +17,12 @@
      headers and redirect flag per configuration tag `uextras`): a template edit breaks this;
    - `uprobes`: requests the Go evaluator of the harness (lib/c1819 RunAuth) ran through those
      parsed rules, with its verdict; `eval_rules` must give the same verdict: the evaluator
-     the oracle relies on is tied to the semantics the theorems are about. *)
+     the oracle relies on is tied to the semantics the theorems are about;
+   - `uidmaps`: the entries (key of the host path, path id) READ FROM the real
+     _back_<id>_idpath__*.map files; whenever the rules of a backend are scoped by path ids
+     the maps must have an entry for every path of the backend (`ids_coverb`, the premise of
+     C18_rendered_rules_fail_closed_mapped) with distinct keys: a path left out of the maps
+     (txn.pathID unset) is a mismatch. *)
 From Coq Require Export ZArith NArith List Bool.
 From HI Require Export Model.AuthExt Model.AuthRules.
 Export ListNotations.
@@ -75,7 +80,8 @@ Record ucase := {
   uextras : list (N * extra);                     (* observed, by configuration tag *)
   uxbacks : list (N * (list (N * cors) * list xrule));  (* observed Cors per path; parsed rules *)
   uxfront : list xrule;                           (* parsed, frontend *)
-  uprobes : list (N * xreq * bool * verdict) }.   (* backend (0 = frontend), request, services ok?, Go verdict *)
+  uprobes : list (N * xreq * bool * verdict);     (* backend (0 = frontend), request, services ok?, Go verdict *)
+  uidmaps : list (N * list (N * N)) }.            (* per backend: the real idpath maps *)
 
 Fixpoint list_eqb {A} (e : A -> A -> bool) (a b : list A) : bool :=
   match a, b with
@@ -136,6 +142,19 @@ Definition verdict_eqb (x y : verdict) : bool :=
   | _, _ => false
   end.
 
+Fixpoint last_ds (b : N) (cs : list ucall) (acc : list pdecl) : list pdecl :=
+  match cs with
+  | [] => acc
+  | UBackend b' ds :: r => last_ds b r (if N.eqb b b' then ds else acc)
+  | _ :: r => last_ds b r acc
+  end.
+
+Definition uses_ids (rs : list xrule) : bool :=
+  existsb (fun r => existsb (fun t => match t with TIds _ => true | _ => false end) (x_if r)) rs.
+
+Fixpoint nodup_n (l : list N) : bool :=
+  match l with [] => true | x :: r => negb (existsb (N.eqb x) r) && nodup_n r end.
+
 Definition final (c : ucase) : ustate :=
   fold_left (run_call (ulua c))
     (ucalls c)
@@ -166,7 +185,12 @@ Definition ucase_ok (c : ucase) : bool :=
      let '(b, q, ok, v) := p in
      let rules := if N.eqb b 0 then uxfront c
                   else match assoc b (uxbacks c) with Some x => snd x | None => @nil xrule end in
-     verdict_eqb (eval_rules rules q (fun _ => if ok then OOk else ONon2xx) false) v) (uprobes c).
+     verdict_eqb (eval_rules rules q (fun _ => if ok then OOk else ONon2xx) false) v) (uprobes c) &&
+  (* the real idpath maps cover the paths of every backend whose rules test txn.pathID *)
+  forallb (fun x : N * (list (N * cors) * list xrule) =>
+     negb (uses_ids (snd (snd x))) ||
+     let m := match assoc (fst x) (uidmaps c) with Some m => m | None => @nil (N * N) end in
+     ids_coverb m (last_ds (fst x) (ucalls c) []) && nodup_n (map fst m)) (uxbacks c).
 
 Definition mismatches (cs : list ucase) : list N :=
   map uid (filter (fun c => negb (ucase_ok c)) cs).
